@@ -4,4 +4,4 @@ Require Import Base.Bytes Gen.TextTab Text.Escape Text.Codepage.
 Extraction Language OCaml.
 Definition x_len (l : list N) : nat := length l.
 Definition x_res (b : bool) : res N := if b then Ok 0%N else if b then Err else Panic.
-Extraction "model.ml" x_len x_res escape unescape strip to_lossy_bytes to_lossy_string gen_codepage_letters.
+Extraction "model.ml" x_len x_res escape unescape strip to_lossy_bytes to_lossy_string gen_codepage_letters lead gen_propagate_letter gen_default_codepage.
